@@ -289,6 +289,7 @@ impl Builder {
                     TaState::WrongKey => { let b = self.ta_cert(w, t, (root_key + 5) % CA_KEYS, tal.ta_nb, tal.ta_na); out.files.insert(uri, b); }
                     TaState::Garbage => { out.files.insert(uri.clone(), garbage(&uri, 300)); }
                     TaState::Expired => { let b = self.ta_cert(w, t, root_key, w.now - 10 * YEAR, w.now - DAY); out.files.insert(uri, b); }
+                    TaState::NotYetValid => { let b = self.ta_cert(w, t, root_key, w.now + 3600, w.now + 10 * YEAR); out.files.insert(uri, b); }
                     TaState::Unreachable => { out.failing_modules.push(format!("ta{t}u{n}.rpki.test/ta")); }
                 }
             }
